@@ -26,7 +26,7 @@ func init() {
 		Assumptions: []string{"root", "the reference sender is conforming by construction (STATs ascending, ids = STAT positions, one terminator per id, FIN echoed)"},
 		Cases: func(tier string) int {
 			if tier == "thorough" {
-				return 15000
+				return 60000
 			}
 			return 1000
 		},
